@@ -471,3 +471,24 @@ Print Assumptions C04_frag_string_no_slack_refuted.
 Theorem C04_frag_array_writes_in_bounds : forall n : nat, Forall wr_in (a_writes (arr_run n 0 0)).
 Proof. exact arr_writes_in_bounds. Qed.
 Print Assumptions C04_frag_array_writes_in_bounds.
+
+(* the contents: every way of cutting a value into fragments is reassembled to the value (what the tie observes as
+   "the same value as the largest-first fragmentation") *)
+Theorem C04_frag_opentype_reassembles : forall frs : list (list Z),
+  Forall chunk_ok (sizes frs) -> Z.of_nat (length (concat frs)) < two58 ->
+  exists b, ot_data grow_c frs [] 0 = Some (b, length (concat frs)) /\ firstn (length (concat frs)) b = concat frs.
+Proof. exact ot_reassembles. Qed.
+Print Assumptions C04_frag_opentype_reassembles.
+
+Theorem C04_frag_opentype_order_independent : forall frs1 frs2 : list (list Z),
+  Forall chunk_ok (sizes frs1) -> Forall chunk_ok (sizes frs2) -> concat frs1 = concat frs2 ->
+  Z.of_nat (length (concat frs1)) < two58 ->
+  exists b1 b2 n, ot_data grow_c frs1 [] 0 = Some (b1, n) /\ ot_data grow_c frs2 [] 0 = Some (b2, n) /\ firstn n b1 = firstn n b2.
+Proof. exact ot_order_independent. Qed.
+Print Assumptions C04_frag_opentype_order_independent.
+
+Theorem C04_frag_opentype_doubling_store_refuted :
+  ot_data grow_double [repeat 1 3; repeat 2 9] [] 0 = None /\
+  ot_data grow_c [repeat 1 3; repeat 2 9] [] 0 = Some (repeat 1 3 ++ repeat 2 9 ++ repeat 0 9, 12%nat).
+Proof. exact ot_data_doubling_refuted. Qed.
+Print Assumptions C04_frag_opentype_doubling_store_refuted.
